@@ -30,6 +30,7 @@ type Prog struct {
 
 	funcs     map[string]*FuncInfo // "pkgpath.Recv.Name" / "pkgpath.Name"
 	callers   map[*types.Func][]*FuncInfo
+	wsCache   map[*FuncInfo][]string
 	funcByObj map[*types.Func]*FuncInfo
 	funcList  []*FuncInfo
 }
